@@ -264,6 +264,17 @@ def path_atoms(node, stop=None, seg=ast.unparse):
             out.add((str(seg(test)), pol))
     for t, pol in dominating_tests(node, stop=stop):
         add(t, pol)
+    # position inside a short-circuit expression: in `a and b` b is evaluated when a held, in `a or b` when it did not
+    child = node
+    for p in parent_chain(node):
+        if p is stop or isinstance(p, (ast.FunctionDef, ast.AsyncFunctionDef, ast.ClassDef, ast.stmt)):
+            break
+        if isinstance(p, ast.BoolOp):
+            for v in p.values:
+                if v is child:
+                    break
+                add(v, isinstance(p.op, ast.And))
+        child = p
     return out
 
 
